@@ -149,13 +149,17 @@ class C18(Prop):
             elif r < 0.75:
                 p = rng.choice([0, 1, 80, 65535, 65536, -1, 10 ** 20, '0', '1', '80', '65535', '65536', '080', '', ' 80', '80 ', '+80', '-1',
                                 '8_0', '٨٠', '۸۰', '8٠', '²', '1²', '1e3', '0x50', '9' * 4301, '1' + '0' * 30,
+                                # digit strings of six and more characters: leading zeros do not change the value
+                                '000080', '0000443', '065535', '065536', '000000', '0000001', '0' * 20 + '22', '00000' + str(rng.randrange(1, 70000)),
                                 str(rng.randrange(0, 70000)), rng.randrange(-5, 70000)])
                 yield {'kind': 'port', 'p': tp(p)}
             elif r < 0.8:
                 s = rng.choice(['', 'host', 'host:80', 'host:', ':80', ':', '[::1]:80', '[::1]', '::1', 'tcp://host:80', 'tcp://host', 'tcp://:80',
                                 'tcp://', '://host:80', 'tcp:/host', 'tcp', 'SSL', '80', 'localhost', 'foo.bar:80', '1.2.3.4', '1.2.3.4:5',
                                 'a://b://c', 'tcp://[::1]', 'tcp://[::1]:1', 'x' * 300, 'tcp://' + gen_hostish(rng), gen_hostish(rng),
-                                gen_hostish(rng) + ':' + str(rng.randrange(70000))])
+                                gen_hostish(rng) + ':' + str(rng.randrange(70000)), 'example.com:000080', '[::1]:0000443', 'ssl://1.2.3.4:065535',
+                                'example.com:80:443', '1.2.3.4:80:', 'localhost:80:x', 'ssl://example.com:443:junk', 'example.com::80',
+                                'host:0' + str(rng.randrange(70000)), 'tcp://host:80:' + str(rng.randrange(100))])
                 yield {'kind': 'parse', 'what': rng.choice(['netaddr', 'service', 'service']), 's': tp(s),
                        'df': rng.choice(['none', 'full', 'noproto', 'nothing', 'portonly', 'badvals', 'strport'])}
             elif r < 0.87:
